@@ -75,6 +75,7 @@ type VC struct {
 	fmtIDs         map[string]int
 	sprintfFormats map[string]string
 	recHeaps       map[string]string // heap components read while a fold body is translated
+	trivial        map[string]bool   // obligations whose goal was decided during generation
 }
 
 func NewVC(p *Program, fn *ssa.Function, c *FuncContract) *VC {
@@ -250,6 +251,37 @@ func (vc *VC) newRef(st *State, what string) Term {
 	return r
 }
 
+// ensureBoxed: on this path, the content of a cell whose address escaped lives in the box heap at c.boxRef.
+func (ex *Exec) ensureBoxed(st *State, c *Cell) {
+	vc := ex.vc
+	if st.boxedHere[c] || c.boxRef.S == "" {
+		return
+	}
+	if st.boxedHere == nil {
+		st.boxedHere = map[*Cell]bool{}
+	}
+	st.boxedHere[c] = true
+	cur, ok := st.cells[c]
+	if !ok {
+		// no content of its own on this path: a cell of an earlier frame or one that was only ever used boxed
+		return
+	}
+	if cur.K != VTerm {
+		return
+	}
+	r := c.boxRef
+	if st.allocTop.S == "" {
+		vc.declare("alloc0", SInt)
+		st.allocTop = Term{"alloc0", SInt}
+		st.assume("(>= alloc0 0)")
+	}
+	st.assume(app(">", r.S, "alloc0"))
+	st.assume(not(app("=", r.S, "0")))
+	hn, hs := vc.boxHeap(c.sort)
+	h := vc.heapGet(st, hn, hs)
+	vc.heapSet(st, hn, Term{app("store", h.S, r.S, cur.T.S), hs})
+}
+
 // structural update of a value along a path
 func (vc *VC) updatePath(cur Term, path []Step, v Term) Term {
 	if len(path) == 0 {
@@ -344,6 +376,7 @@ func (ex *Exec) load(st *State, p *Ptr) Val {
 	case PCell:
 		c := p.Cell
 		if c.boxed {
+			ex.ensureBoxed(st, c)
 			hn, hs := vc.boxHeap(c.sort)
 			base := Term{app("select", vc.heapGet(st, hn, hs).S, c.boxRef.S), c.sort}
 			r := tv(vc.readPath(base, p.Path))
@@ -411,6 +444,7 @@ func (ex *Exec) store(st *State, p *Ptr, v Val) {
 			st.writes.cells[c] = true
 		}
 		if c.boxed {
+			ex.ensureBoxed(st, c)
 			hn, hs := vc.boxHeap(c.sort)
 			h := vc.heapGet(st, hn, hs)
 			base := Term{app("select", h.S, c.boxRef.S), c.sort}
@@ -529,9 +563,14 @@ func (ex *Exec) materialize(st *State, p *Ptr) Term {
 				h := vc.heapGet(st, hn, hs)
 				vc.heapSet(st, hn, Term{app("store", h.S, r.S, ct.S), hs})
 				c.boxed, c.boxRef = true, r
-				// NB: boxing is per VC, not per path; acceptable because a cell is
-				// boxed at a fixed program point on every path that reaches it.
+				if st.boxedHere == nil {
+					st.boxedHere = map[*Cell]bool{}
+				}
+				st.boxedHere[c] = true
+				// the box reference is one name per VC; every path moves the cell's content into the
+				// box the first time it touches the cell after that (ensureBoxed)
 			}
+			ex.ensureBoxed(st, c)
 			return c.boxRef
 		}
 	}
@@ -1513,7 +1552,8 @@ func (ex *Exec) rangeInstr(fr *Frame, x *ssa.Range, st *State) {
 		return
 	}
 	ks := vc.sorts.SortOf(mt.Key())
-	c := &Cell{id: -2, name: "visited", typ: nil, sort: "(Array " + ks + " Bool)"}
+	// (contracts name the set of keys a `range` over a map has already produced: visited)
+	c := &Cell{id: -2, frame: fr.id, name: "visited", typ: nil, sort: "(Array " + ks + " Bool)"}
 	vc.cellCtr++
 	c.id = vc.cellCtr
 	st.order = append(st.order, c)
